@@ -26,6 +26,11 @@ pub mod guard_models {
     }
     #[verifier::external_body] pub struct RequestCancellation { _p: u8 }
     impl RequestCancellation {
+        /// identity of the dispatch's cancellation queue this handle feeds
+        pub uninterp spec fn queue(&self) -> int;
+        /// Clone of the unbounded sender inside: the same queue
+        #[verifier::external_body]
+        pub fn clone(&self) -> (r: RequestCancellation) ensures r.queue() == self.queue() { unimplemented!() }
         #[verifier::external_body]
         pub fn cancel(&self, request_id: u64, Tracked(fx): Tracked<&mut GFx>)
             ensures final(fx).log == old(fx).log.push(GEffect::CancelMsg { id: request_id })
